@@ -56,6 +56,8 @@ type World struct {
 	ginParams  map[string]*Term
 	ignoreGo   bool
 	ginBound   []ginBound
+	tablesDropped, dbClosed int
+	removed    []*Term
 	httpBuilt  *httpSent
 	httpSent   []*httpSent
 	httpHeaders [][2]*Term
